@@ -117,6 +117,7 @@ type Exec struct {
 	crossQ      []crossQuery
 	sched       int
 	internalND  int
+	lastRun     *Goroutine
 	closing     bool // the current branch() decides an assertion / panic check
 	known       map[int]*Term // sub-term -> constant, implied by the path condition
 	substMemo   map[int]*Term
@@ -735,9 +736,30 @@ func (e *Exec) pickNext(except *Goroutine) *Goroutine {
 	if len(cands) == 0 {
 		return nil
 	}
-	g := cands[e.choose(len(cands))]
+	// Delay-bounded scheduling: the default successor is the runnable goroutine that follows
+	// the last one in round-robin order; picking any other one costs one unit of the same budget
+	// that pre-emptions draw from. With the budget exhausted the schedule is deterministic.
+	start := 0
+	if e.lastRun != nil {
+		for i, c := range cands {
+			if c.id > e.lastRun.id {
+				start = i
+				break
+			}
+		}
+	}
+	k := 0
+	if len(cands) > 1 && e.preempts > 0 {
+		k = e.choose(len(cands))
+		if k != 0 {
+			e.preempts--
+			e.sched++
+		}
+	}
+	g := cands[(start+k)%len(cands)]
 	g.state = GRun
 	g.ready = nil
+	e.lastRun = g
 	return g
 }
 
@@ -760,10 +782,12 @@ func (e *Exec) syncPoint(g *Goroutine) bool {
 		return false
 	}
 	e.preempts--
+	e.sched++
 	o := others[ch-1]
 	o.state = GRun
 	o.ready = nil
 	e.cur = o
+	e.lastRun = o
 	return true
 }
 
